@@ -7,6 +7,7 @@ run — the check demands it whenever the C++ step raised no FE_INEXACT).
 -/
 import SharkVerif.Model.GradOpt
 import SharkVerif.Model.Objectives
+import SharkVerif.Gen.LbfgsBox
 open SharkVerif.Opt
 
 /-! ### numbers -/
@@ -182,7 +183,21 @@ def verdict (fields : List (String × Nat)) : String :=
   | none => if fields.all (·.2 == 0) then "ok bits" else
     "ok tol " ++ " ".intercalate ((fields.filter (·.2 == 1)).map (·.1))
 
-def xstep (o : Objective Float) (x : XSt) (h : LSOpt Float) (isInit : Bool) : String :=
+/-- the box-constrained direction of the model from the harness' own post-line-search state: the model's
+active set must reproduce the harness' `p0` bit for bit; `multBInv`/`multB` of `p0` are taken from the
+real code (`bx = p0, B⁻¹p0, Bp0`), the model's own `multBInv` is compared with it as well -/
+def boxDirFields (l u x g : List Float) (bdiag : Float) (hist : List (List Float × List Float))
+    (bx : List Float) (dirH : List Float) : List (String × Nat) :=
+  let n := x.length
+  let p0h := bx.take n; let bih := (bx.drop n).take n; let bph := (bx.drop (2 * n)).take n
+  let p0m := LSOpt.Box.p0 l u x g
+  -- the variant of the function the checked tree contains (regenerated from its source on every run)
+  let d := LSOpt.Box.directionOfV SharkVerif.Gen.LbfgsBox.variant (fun _ => bih) (fun _ => bph) l u x g
+  [("box-p0", if p0m.length == n && (List.zipWith (fun a b => a.toBits == b.toBits || (a == 0 && b == 0)) p0m p0h).all id then 0 else 2),
+   ("box-multBInv", cmpVec (LSOpt.multBInv bdiag hist p0m) bih),
+   ("box-dir", cmpVec d dirH)]
+
+def xstep (o : Objective Float) (x : XSt) (h : LSOpt Float) (isInit : Bool) (bx : List Float := []) : String :=
   let boxLbfgs := o.constrained && x.kind == "lbfgs"
   if isInit then
     let kind : LSModel Float := match x.kind with
@@ -212,7 +227,19 @@ def xstep (o : Objective Float) (x : XSt) (h : LSOpt Float) (isInit : Bool) : St
       let a := after.1
       let common := after.2 ++ [("lastPoint", cmpVec a.lastPoint h.lastPoint), ("lastDerivative", cmpVec a.lastDerivative h.lastDerivative),
                                 ("lastValue", cmpNum 0 a.lastValue h.lastValue), ("isl", cmpNum 0 a.initialStep h.initialStep)]
-      if boxLbfgs then verdict common else
+      if boxLbfgs then
+        -- history update by the model, direction by the model of getBoxConstrainedDirection
+        let a' := { a with best := h.best, derivative := h.derivative }
+        match a'.model, h.model with
+        | .lbfgs nh bd hist, .lbfgs _ bdH histH =>
+          let y := Vec.sub a'.derivative a'.lastDerivative
+          let st := Vec.sub a'.best.point a'.lastPoint
+          let (bd', hist') := LSOpt.lbfgsUpdateHist nh bd hist y st
+          let mfield := ("model", cmpVec (modelNums (.lbfgs nh bd' hist')) (modelNums h.model))
+          if bx.length != 3 * h.dim then verdict (common ++ [mfield]) else
+          verdict (common ++ [mfield] ++ boxDirFields o.lower o.upper h.best.point h.derivative bdH histH bx h.dir)
+        | _, _ => verdict common
+      else
       -- direction update from the harness' own post-line-search state (no error accumulation)
       let a' := { a with best := h.best, derivative := h.derivative }
       let n := LSOpt.computeSearchDirection a'
@@ -294,6 +321,20 @@ def step (s : St) (line : String) : St × String :=
     | _, _, _ => (s, "bad-op")
   | ["xopt", kind, ls, nh] =>
     ({ s with x := { kind := kind, ls := ls.toNat?.getD 2, numHist := nh.toNat?.getD 100, cur := none } }, "ok")
+  | ["xboxdir", n, m, inp, st] =>
+    -- direct call of getBoxConstrainedDirection: inp = bdiag, x(n), g(n), l(n), u(n), S(m*n), Y(m*n);
+    -- st = dir(n), p0(n), B⁻¹p0(n), Bp0(n) reported by the C++
+    match n.toNat?, m.toNat?, (inp.splitOn ",").mapM parseBits, (st.splitOn ",").mapM parseBits with
+    | some n, some m, some ib, some sb =>
+      let iv := ib.map Float.ofBits; let sv := sb.map Float.ofBits
+      if iv.length != 1 + 4 * n + 2 * m * n || sv.length != 4 * n then (s, "bad-op") else
+      let bdiag := iv.headD 0; let iv := iv.drop 1
+      let x := iv.take n; let g := (iv.drop n).take n; let l := (iv.drop (2*n)).take n; let u := (iv.drop (3*n)).take n
+      let hs := iv.drop (4 * n)
+      let S := (List.range m).map fun i => (hs.drop (i * n)).take n
+      let Y := (List.range m).map fun i => (hs.drop ((m + i) * n)).take n
+      (s, verdict (boxDirFields l u x g bdiag (List.zip S Y) (sv.drop n) (sv.take n)))
+    | _, _, _, _ => (s, "bad-op")
   | [op, st] =>
     if op != "xinit" && op != "xstep" && op != "xadopt" then (s, "bad-op") else
     match parseSt s.x.kind s.x.numHist st with
@@ -307,6 +348,12 @@ def step (s : St) (line : String) : St × String :=
     match s.fl.best with
     | none => (s, "bad-op")
     | some _ => ({ s with fl := s.fl.saveRestore dblMax, rt := if s.ratOk then s.rt.saveRestore dblMaxRat else s.rt }, "saved")
+  | [op, st, bx] =>
+    if op != "xstep" then (s, "bad-op") else
+    match parseSt s.x.kind s.x.numHist st, (bx.splitOn ",").mapM parseBits with
+    | some h, some bb =>
+      ({ s with x := { s.x with cur := some h } }, xstep s.fl.obj s.x h false (bb.map Float.ofBits))
+    | _, _ => (s, "bad-op")
   | _ => (s, "bad-op")
 
 partial def loop (h : IO.FS.Stream) (out : IO.FS.Stream) (s : St) : IO Unit := do
